@@ -209,9 +209,15 @@ static int inflight_skip(void) {
     for (int i = 0; i < sh->nskip; i++) if (sh->skip[i] == sh->exec_counter) return 1;
     return 0;
 }
+const char *(*hx_inflight_describe)(void) = NULL;
+int hx_inflight_tick(void) { if (sh) sh->exec_counter++; return inflight_skip(); }
 static void death_publish(int reason, int signo, uintptr_t addr) {
     if (!sh || sh->crashed) return;
     sh->crashed = 1; sh->reason = reason; sh->signo = signo; sh->fault_addr = addr;
+    if (hx_inflight_describe) {
+        const char *t = hx_inflight_describe(); size_t n = strlen(t); if (n >= SH_TEXT) n = SH_TEXT - 1;
+        memcpy(sh->text, t, n); sh->text_len = (uint32_t) n; return;
+    }
     if (hx_cur_script && death_buf.cap >= SH_TEXT) {
         hb_reset(&death_buf);
         /* bounded: scripts that would not fit are cut (the replay file then says so) */
